@@ -437,13 +437,24 @@ func (fr *Frame) activeScopes() []*scope {
 func (fr *Frame) loopCtx(li *loopInfo, st *State) *TrCtx {
 	ex := fr.ex
 	tc := ex.contractCtx(st, ex.entry)
-	if fr.fn != ex.top {
+	if fr.fn != ex.top && fr.fn.Parent() != ex.top {
 		tc.vars = map[string]TVal{}
 		if fr.fn.Pkg != nil {
 			tc.pkg = fr.fn.Pkg.Pkg
 		}
 	}
 	tc.locals = func(name string) (TVal, bool) { return fr.localByName(st, name) }
+	if fr.fn == ex.top {
+		// in invariants a parameter name means the current value of the (possibly reassigned) parameter;
+		// old(p) means its value on entry
+		tc.entryVars = map[string]TVal{}
+		for k, v := range ex.paramVals {
+			tc.entryVars[k] = v
+			if _, isLocal := fr.localByName(st, k); isLocal {
+				delete(tc.vars, k)
+			}
+		}
+	}
 	tc.addrOf = func(name string) (TVal, bool) { return fr.addrByName(name) }
 	if li != nil {
 		if li.seenName != "" {
@@ -524,6 +535,14 @@ func (fr *Frame) addrByName(name string) (TVal, bool) {
 func (fr *Frame) loopSpec(li *loopInfo) *LoopSpec {
 	if fr.fn == fr.ex.top && fr.ex.contract != nil {
 		return fr.ex.contract.Loops[li.ordinal]
+	}
+	// loops of an anonymous function of the function under contract: "loop <1000*k+n>" = loop n of its k-th closure
+	if fr.fn.Parent() == fr.ex.top && fr.ex.contract != nil {
+		for k, a := range fr.ex.top.AnonFuncs {
+			if a == fr.fn {
+				return fr.ex.contract.Loops[1000*(k+1)+li.ordinal]
+			}
+		}
 	}
 	// loops of inlined callees may be annotated on the callee's own (inline) contract
 	for _, c := range fr.ex.eng.contracts[fr.fn] {
